@@ -366,6 +366,12 @@ def gen_state(rng):
     try:
         for _ in range(rng.randint(0, 12)):
             dio.read_bit(state)
+        if rng.random() < 0.4:
+            # a recording in progress (started at a byte boundary, as sequence_header does), some bits into it
+            dio.byte_align(state)
+            dio.record_bitstream_start(state)
+            for _ in range(rng.randint(0, 20)):
+                dio.read_bit(state)
     except Exception:
         pass
     if rng.random() < 0.6:
@@ -382,3 +388,32 @@ def gen_file(rng):
 
 
 GENERATORS = {"dict:State": gen_state, "file": gen_file}
+
+
+# ---- recording ---------------------------------------------------------------------------------------
+
+
+@spec(IO + "record_bitstream_start")
+class _rbs:
+    args = {"state": STATE}
+    requires = ["dinv(state)", 'state["next_bit"] == 7', 'not has(state, "_recorded_bytes")']
+    modifies = ['state["_recorded_bytes"]']
+    raises = {}
+    ensures = ["dinv(state)", 'has(state, "_recorded_bytes")', 'length(state["_recorded_bytes"]) == 0', 'is_fresh(state["_recorded_bytes"])']
+
+
+@spec(IO + "record_bitstream_finish")
+class _rbf:
+    args = {"state": STATE}
+    result = "list:int"
+    requires = ["dinv(state)", 'has(state, "_recorded_bytes")']
+    modifies = ['state["_recorded_bytes"]', 'elems(state["_recorded_bytes"])', 'length(state["_recorded_bytes"])']
+    raises = {}
+    ensures = ["dinv(state)", 'not has(state, "_recorded_bytes")',
+               # (docstring / C01 'byte-identical repeated sequence headers') the bytes read since the start of the recording; the bits of the
+               # current byte that have not been read yet (next_bit and below) are zero in the last recorded byte
+               'implies(state["next_bit"] == 7, length(result) == old(length(state["_recorded_bytes"])))',
+               'implies(state["next_bit"] != 7, length(result) == old(length(state["_recorded_bytes"])) + 1 and '
+               'content(result)[length(result) - 1] == (state["current_byte"] // pow2(state["next_bit"] + 1)) * pow2(state["next_bit"] + 1))',
+               'forall(0, old(length(state["_recorded_bytes"])), lambda j: content(result)[j] == old(content(state["_recorded_bytes"]))[j], trigger=lambda j: content(result)[j])']
+    ghost = {"entry": ['use("band_clear_low", state["current_byte"], state["next_bit"] + 1)']}
